@@ -86,6 +86,11 @@ def token_stubs(cx, engine):
     def h_deref(engine, st, fr, callee, argv, m):
         return argv[0]
 
+    def h_trim(engine, st, fr, callee, argv, m):
+        s_ = unref(engine, st, argv[0])
+        st.events.append(("trim", m.group(1), s_.label if isinstance(s_, Opaque) else None))
+        return Ref(("V", Opaque("str", "trimmed", {"of": s_})))
+
     def h_pop(engine, st, fr, callee, argv, m):
         s = unref(engine, st, argv[0])
         st.events.append(("pop", s.label if isinstance(s, Opaque) else None))
@@ -133,6 +138,9 @@ def token_stubs(cx, engine):
         (re.compile(r"^<String as PartialEq<&str>>::eq$"), h_str_eq),
         (re.compile(r"^<String as Deref>::deref$"), h_deref),
         (re.compile(r"^String::pop$"), h_pop),
+        (re.compile(r"^core::str::<impl str>::(bytes|chars|char_indices)$"), lambda e, st, fr, c, a, m: Opaque("StrIter", "iter", {"of": a[0]})),
+        (re.compile(r"^<(?:std::str::|core::str::)?(?:Bytes|Chars)<'_> as Iterator>::(any|all|position|count)::<"), lambda e, st, fr, c, a, m: BoolV(z3.Bool("striter_%s_%d" % (m.group(1), next(e.fresh))))),
+        (re.compile(r"^core::str::<impl str>::(trim_end_matches|trim_start_matches|trim_matches|trim_end|trim)(?:::<.*>)?$"), h_trim),
         (re.compile(r"^String::as_bytes$"), h_deref),
         (re.compile(r"^<(?:NilSymbol|TSymbol|CharSyntax|StringSyntax|Brackets) as PartialEq>::(eq|ne)$"), h_enum_cmp),
         (re.compile(P + r"expect_ident$"), lambda e, st, fr, c, a, m: mk_exit("expect_ident:" + (S.bytes_of(e, a[1]) or b"?").decode())(e, st, fr, c, a, m)),
